@@ -5,6 +5,9 @@ import Mathlib.Tactic.Linarith
 import Mathlib.Tactic.Ring
 import Mathlib.Tactic.Positivity
 import Mathlib.Tactic.NormNum
+import Mathlib.Tactic.Module
+import Mathlib.Tactic.FieldSimp
+import Mathlib.Tactic.Abel
 /-!
 Geometry of the prolate hyperspheroid (PHS) used by informed sampling: the linear map
 `img a b e` (stretch by `a` along the unit transverse axis `e`, by `b` orthogonally) sends the unit
@@ -94,5 +97,239 @@ theorem phs_interior {e : E} (he : ‖e‖ = 1) {a b f : ℝ} (hb : b ^ 2 = a ^ 
     apply lt_of_pow_lt_pow_left₀ 2 h2.le
     rw [core_minus he hb]; linarith
   linarith
+
+/-- Points of the closed exterior of the unit ball are mapped (weakly) outside the PHS. -/
+theorem phs_exterior {e : E} (he : ‖e‖ = 1) {a b f : ℝ} (hb : b ^ 2 = a ^ 2 - f ^ 2)
+    {w : E} (hw : 1 ≤ ‖w‖) :
+    2 * a ≤ ‖img a b e w + f • e‖ + ‖img a b e w - f • e‖ := by
+  have hpos : 0 ≤ b ^ 2 * (‖w‖ ^ 2 - 1) := by
+    have : 1 ≤ ‖w‖ ^ 2 := by nlinarith
+    nlinarith [sq_nonneg b]
+  have hp : a + f * ⟪w, e⟫_ℝ ≤ ‖img a b e w + f • e‖ := by
+    refine (abs_le_of_sq_le_sq' ?_ (norm_nonneg _)).2
+    rw [core_plus he hb]; linarith
+  have hm : a - f * ⟪w, e⟫_ℝ ≤ ‖img a b e w - f • e‖ := by
+    refine (abs_le_of_sq_le_sq' ?_ (norm_nonneg _)).2
+    rw [core_minus he hb]; linarith
+  linarith
+
+/-- Every point strictly inside the PHS is the image of a point of the open unit ball. -/
+theorem phs_onto {e : E} (he : ‖e‖ = 1) {a b f : ℝ} (hb : b ^ 2 = a ^ 2 - f ^ 2)
+    (hb0 : 0 < b) (ha0 : 0 < a) (p : E) (hp : ‖p + f • e‖ + ‖p - f • e‖ < 2 * a) :
+    ∃ w : E, ‖w‖ < 1 ∧ img a b e w = p := by
+  set s : ℝ := ⟪p, e⟫_ℝ with hs
+  have hperp : ⟪p - s • e, e⟫_ℝ = 0 := perp_inner he p
+  set w : E := (1 / b) • (p - s • e) + (s / a) • e with hw
+  have ht : ⟪w, e⟫_ℝ = s / a := by
+    rw [hw, inner_add_left, real_inner_smul_left, real_inner_smul_left, hperp,
+      real_inner_self_eq_norm_sq, he]
+    ring
+  have himg : img a b e w = p := by
+    unfold img
+    rw [ht]
+    have h1 : w - (s / a) • e = (1 / b) • (p - s • e) := by rw [hw]; abel
+    have h2 : b * (1 / b) = 1 := by field_simp
+    have h3 : a * (s / a) = s := by field_simp
+    rw [h1, smul_smul, h2, h3, one_smul]; abel
+  refine ⟨w, ?_, himg⟩
+  by_contra hcon
+  have := phs_exterior he hb (f := f) (not_lt.1 hcon)
+  rw [himg] at this
+  linarith
+
+/-- The image of the open unit ball is exactly the open interior of the PHS. -/
+theorem phs_image_eq {e : E} (he : ‖e‖ = 1) {a b f : ℝ} (hb : b ^ 2 = a ^ 2 - f ^ 2)
+    (hb0 : 0 < b) (hfa : f < a) (hf0 : 0 ≤ f) :
+    (img a b e) '' Metric.ball 0 1 = {p | ‖p + f • e‖ + ‖p - f • e‖ < 2 * a} := by
+  ext p
+  constructor
+  · rintro ⟨w, hw, rfl⟩
+    exact phs_interior he hb hf0 (mem_ball_zero_iff.1 hw) hb0 hfa
+  · intro hp
+    obtain ⟨w, hw, h⟩ := phs_onto he hb hb0 (lt_of_le_of_lt hf0 hfa) p hp
+    exact ⟨w, mem_ball_zero_iff.2 hw, h⟩
+
+/-! ### foci form -/
+
+/-- the normalised focal axis is a unit vector -/
+theorem axis_norm {F1 F2 : E} (hne : F1 ≠ F2) : ‖(1 / ‖F2 - F1‖) • (F2 - F1)‖ = 1 := by
+  have h : 0 < ‖F2 - F1‖ := norm_pos_iff.2 (sub_ne_zero.2 hne.symm)
+  rw [norm_smul, Real.norm_eq_abs, abs_of_pos (by positivity)]
+  field_simp
+
+/-- the conjugate radius `b = √(c² - cmin²)/2` satisfies `b² = a² - f²` -/
+theorem conj_sq {c cmin : ℝ} (h0 : 0 ≤ cmin) (h : cmin ≤ c) :
+    (Real.sqrt (c ^ 2 - cmin ^ 2) / 2) ^ 2 = (c / 2) ^ 2 - (cmin / 2) ^ 2 := by
+  have : 0 ≤ c ^ 2 - cmin ^ 2 := by nlinarith
+  rw [div_pow, Real.sq_sqrt this]; ring
+
+/-- the conjugate radius is positive when `cmin < c` -/
+theorem conj_pos {c cmin : ℝ} (h0 : 0 ≤ cmin) (h : cmin < c) :
+    0 < Real.sqrt (c ^ 2 - cmin ^ 2) / 2 := by
+  have : 0 < c ^ 2 - cmin ^ 2 := by nlinarith
+  have := Real.sqrt_pos.2 this
+  positivity
+
+/-- offset of a PHS point from the focus `F1` -/
+theorem sub_F1 {F1 F2 : E} (hne : F1 ≠ F2) (p : E) :
+    (1 / 2 : ℝ) • (F1 + F2) + p - F1
+      = p + (‖F2 - F1‖ / 2) • ((1 / ‖F2 - F1‖) • (F2 - F1)) := by
+  have h : ‖F2 - F1‖ ≠ 0 := norm_ne_zero_iff.2 (sub_ne_zero.2 hne.symm)
+  have h2 : ‖F2 - F1‖ / 2 * (1 / ‖F2 - F1‖) = 1 / 2 := by field_simp
+  rw [smul_smul, h2]; module
+
+/-- offset of a PHS point from the focus `F2` -/
+theorem sub_F2 {F1 F2 : E} (hne : F1 ≠ F2) (p : E) :
+    (1 / 2 : ℝ) • (F1 + F2) + p - F2
+      = p - (‖F2 - F1‖ / 2) • ((1 / ‖F2 - F1‖) • (F2 - F1)) := by
+  have h : ‖F2 - F1‖ ≠ 0 := norm_ne_zero_iff.2 (sub_ne_zero.2 hne.symm)
+  have h2 : ‖F2 - F1‖ / 2 * (1 / ‖F2 - F1‖) = 1 / 2 := by field_simp
+  rw [smul_smul, h2]; module
+
+/-- Foci form, surface: a unit vector `w` is mapped to a point whose distances to the foci sum to
+exactly `c`. -/
+theorem phs_surface_foci {F1 F2 : E} (hne : F1 ≠ F2) {c : ℝ} (hc : ‖F2 - F1‖ ≤ c)
+    {w : E} (hw : ‖w‖ = 1) :
+    ‖(1 / 2 : ℝ) • (F1 + F2)
+        + img (c / 2) (Real.sqrt (c ^ 2 - ‖F2 - F1‖ ^ 2) / 2) ((1 / ‖F2 - F1‖) • (F2 - F1)) w
+        - F1‖
+      + ‖(1 / 2 : ℝ) • (F1 + F2)
+        + img (c / 2) (Real.sqrt (c ^ 2 - ‖F2 - F1‖ ^ 2) / 2) ((1 / ‖F2 - F1‖) • (F2 - F1)) w
+        - F2‖ = c := by
+  rw [sub_F1 hne, sub_F2 hne,
+    phs_surface (axis_norm hne) (conj_sq (norm_nonneg _) hc) (by positivity) (by linarith) hw]
+  ring
+
+/-- Foci form, interior: a vector `w` of the open unit ball is mapped to a point whose distances
+to the foci sum to strictly less than `c`. -/
+theorem phs_interior_foci {F1 F2 : E} (hne : F1 ≠ F2) {c : ℝ} (hc : ‖F2 - F1‖ < c)
+    {w : E} (hw : ‖w‖ < 1) :
+    ‖(1 / 2 : ℝ) • (F1 + F2)
+        + img (c / 2) (Real.sqrt (c ^ 2 - ‖F2 - F1‖ ^ 2) / 2) ((1 / ‖F2 - F1‖) • (F2 - F1)) w
+        - F1‖
+      + ‖(1 / 2 : ℝ) • (F1 + F2)
+        + img (c / 2) (Real.sqrt (c ^ 2 - ‖F2 - F1‖ ^ 2) / 2) ((1 / ‖F2 - F1‖) • (F2 - F1)) w
+        - F2‖ < c := by
+  rw [sub_F1 hne, sub_F2 hne]
+  have := phs_interior (axis_norm hne) (conj_sq (norm_nonneg _) hc.le) (by positivity) hw
+    (conj_pos (norm_nonneg _) hc) (by linarith : ‖F2 - F1‖ / 2 < c / 2)
+  linarith
+
+/-- Foci form, onto: every point whose distances to the foci sum to less than `c` is the image of
+some `w` in the open unit ball. -/
+theorem phs_onto_foci {F1 F2 : E} (hne : F1 ≠ F2) {c : ℝ} (hc : ‖F2 - F1‖ < c)
+    (x : E) (hx : ‖x - F1‖ + ‖x - F2‖ < c) :
+    ∃ w : E, ‖w‖ < 1 ∧
+      (1 / 2 : ℝ) • (F1 + F2)
+        + img (c / 2) (Real.sqrt (c ^ 2 - ‖F2 - F1‖ ^ 2) / 2) ((1 / ‖F2 - F1‖) • (F2 - F1)) w
+        = x := by
+  have hc0 : 0 < c := lt_of_le_of_lt (norm_nonneg _) hc
+  have h1 := sub_F1 hne (x - (1 / 2 : ℝ) • (F1 + F2))
+  have h2 := sub_F2 hne (x - (1 / 2 : ℝ) • (F1 + F2))
+  rw [add_sub_cancel] at h1 h2
+  obtain ⟨w, hw, h⟩ := phs_onto (axis_norm hne) (conj_sq (norm_nonneg _) hc.le)
+    (conj_pos (norm_nonneg _) hc) (by positivity : 0 < c / 2)
+    (x - (1 / 2 : ℝ) • (F1 + F2)) (f := ‖F2 - F1‖ / 2) (by rw [← h1, ← h2]; linarith)
+  exact ⟨w, hw, by rw [h]; abel⟩
+
+/-! ### orthonormal-columns form (`x = R · diag(a, b, …, b) · u + centre`) -/
+
+/-- `R · diag(a, b, …, b) · u` equals `img a b (col 0) (R · u)` when the columns of `R` are
+orthonormal. -/
+theorem cols_img {n : ℕ} {col : Fin (n + 1) → E} (hcol : Orthonormal ℝ col) (a b : ℝ)
+    (u : Fin (n + 1) → ℝ) :
+    ∑ j, ((if j = 0 then a else b) * u j) • col j = img a b (col 0) (∑ j, u j • col j) := by
+  have ht : ⟪∑ j, u j • col j, col 0⟫_ℝ = u 0 := by
+    rw [hcol.inner_left_fintype]; rfl
+  unfold img
+  rw [ht, Fin.sum_univ_succ, Fin.sum_univ_succ (fun j => u j • col j), add_sub_cancel_left,
+    Finset.smul_sum, if_pos rfl, add_comm]
+  congr 1
+  refine Finset.sum_congr rfl fun j _ => ?_
+  rw [if_neg (Fin.succ_ne_zero j), mul_smul]
+
+/-- `‖R · u‖² = ∑ uⱼ²` when the columns of `R` are orthonormal. -/
+theorem cols_norm_sq {n : ℕ} {col : Fin (n + 1) → E} (hcol : Orthonormal ℝ col)
+    (u : Fin (n + 1) → ℝ) : ‖∑ j, u j • col j‖ ^ 2 = ∑ j, (u j) ^ 2 := by
+  rw [← real_inner_self_eq_norm_sq, hcol.inner_sum]
+  refine Finset.sum_congr rfl fun j _ => ?_
+  simp [sq]
+
+/-- Columns form, surface: with orthonormal columns whose first one is the focal axis, a unit
+coefficient vector `u` gives a point whose distances to the foci sum to exactly `c`. -/
+theorem phs_surface_cols {n : ℕ} {col : Fin (n + 1) → E} (hcol : Orthonormal ℝ col)
+    {F1 F2 : E} (hne : F1 ≠ F2) (h0 : col 0 = (1 / ‖F2 - F1‖) • (F2 - F1))
+    {c : ℝ} (hc : ‖F2 - F1‖ ≤ c) {u : Fin (n + 1) → ℝ} (hu : ∑ j, (u j) ^ 2 = 1) :
+    ‖(1 / 2 : ℝ) • (F1 + F2)
+        + ∑ j, ((if j = 0 then c / 2 else Real.sqrt (c ^ 2 - ‖F2 - F1‖ ^ 2) / 2) * u j) • col j
+        - F1‖
+      + ‖(1 / 2 : ℝ) • (F1 + F2)
+        + ∑ j, ((if j = 0 then c / 2 else Real.sqrt (c ^ 2 - ‖F2 - F1‖ ^ 2) / 2) * u j) • col j
+        - F2‖ = c := by
+  have hw : ‖∑ j, u j • col j‖ = 1 :=
+    eq_of_sq_eq (norm_nonneg _) zero_le_one (by rw [cols_norm_sq hcol, hu]; norm_num)
+  rw [cols_img hcol, h0]
+  exact phs_surface_foci hne hc hw
+
+/-- Columns form, interior: a coefficient vector `u` of the open unit ball gives a point whose
+distances to the foci sum to strictly less than `c`. -/
+theorem phs_interior_cols {n : ℕ} {col : Fin (n + 1) → E} (hcol : Orthonormal ℝ col)
+    {F1 F2 : E} (hne : F1 ≠ F2) (h0 : col 0 = (1 / ‖F2 - F1‖) • (F2 - F1))
+    {c : ℝ} {u : Fin (n + 1) → ℝ} (hu : ∑ j, (u j) ^ 2 < 1) (hc : ‖F2 - F1‖ < c) :
+    ‖(1 / 2 : ℝ) • (F1 + F2)
+        + ∑ j, ((if j = 0 then c / 2 else Real.sqrt (c ^ 2 - ‖F2 - F1‖ ^ 2) / 2) * u j) • col j
+        - F1‖
+      + ‖(1 / 2 : ℝ) • (F1 + F2)
+        + ∑ j, ((if j = 0 then c / 2 else Real.sqrt (c ^ 2 - ‖F2 - F1‖ ^ 2) / 2) * u j) • col j
+        - F2‖ < c := by
+  have hw : ‖∑ j, u j • col j‖ < 1 :=
+    lt_of_pow_lt_pow_left₀ 2 zero_le_one (by rw [cols_norm_sq hcol]; simpa using hu)
+  rw [cols_img hcol, h0]
+  exact phs_interior_foci hne hc hw
+
+/-- Columns form, onto: when the columns form an orthonormal basis whose first vector is the focal
+axis, every point whose distances to the foci sum to less than `c` is obtained from some
+coefficient vector `u` of the open unit ball. -/
+theorem phs_onto_cols {n : ℕ} (basis : OrthonormalBasis (Fin (n + 1)) ℝ E)
+    {F1 F2 : E} (hne : F1 ≠ F2) (h0 : basis 0 = (1 / ‖F2 - F1‖) • (F2 - F1))
+    {c : ℝ} (hc : ‖F2 - F1‖ < c) (x : E) (hx : ‖x - F1‖ + ‖x - F2‖ < c) :
+    ∃ u : Fin (n + 1) → ℝ, ∑ j, (u j) ^ 2 < 1 ∧
+      (1 / 2 : ℝ) • (F1 + F2)
+        + ∑ j, ((if j = 0 then c / 2 else Real.sqrt (c ^ 2 - ‖F2 - F1‖ ^ 2) / 2) * u j) • basis j
+        = x := by
+  obtain ⟨w, hw, h⟩ := phs_onto_foci hne hc x hx
+  have hsum : ∑ j, (fun j => basis.repr w j) j • basis j = w := basis.sum_repr w
+  refine ⟨fun j => basis.repr w j, ?_, ?_⟩
+  · rw [← cols_norm_sq basis.orthonormal, hsum]
+    nlinarith [norm_nonneg w]
+  · rw [cols_img basis.orthonormal, hsum, h0]
+    exact h
+
+/-! ### non-vacuity -/
+
+/-- the hypotheses of the axis form are satisfiable (`E = ℝ`, `e = 1`, `a = 5`, `f = 3`, `b = 4`,
+`w = 1` on the sphere, `w = 1/2` in the ball) -/
+example : ‖img 5 4 (1 : ℝ) 1 + (3 : ℝ) • (1 : ℝ)‖ + ‖img 5 4 (1 : ℝ) 1 - (3 : ℝ) • (1 : ℝ)‖ = 2 * 5
+    ∧ ‖img 5 4 (1 : ℝ) (1 / 2) + (3 : ℝ) • (1 : ℝ)‖ + ‖img 5 4 (1 : ℝ) (1 / 2) - (3 : ℝ) • (1 : ℝ)‖
+        < 2 * 5 :=
+  ⟨phs_surface (by norm_num) (by norm_num) (by norm_num) (by norm_num) (by norm_num),
+   phs_interior (by norm_num) (by norm_num) (by norm_num) (by norm_num) (by norm_num)
+    (by norm_num)⟩
+
+/-- the hypotheses of the foci / columns forms are satisfiable for any orthonormal basis:
+`F1 = 0`, `F2 = 6 • basis 0`, `c = 10` -/
+example {n : ℕ} (basis : OrthonormalBasis (Fin (n + 1)) ℝ E) :
+    (0 : E) ≠ (6 : ℝ) • basis 0
+      ∧ basis 0 = (1 / ‖(6 : ℝ) • basis 0 - 0‖) • ((6 : ℝ) • basis 0 - 0)
+      ∧ ‖(6 : ℝ) • basis 0 - 0‖ < 10 := by
+  have h1 : ‖basis 0‖ = 1 := basis.orthonormal.1 0
+  have h6 : ‖(6 : ℝ) • basis 0 - 0‖ = 6 := by
+    rw [sub_zero, norm_smul, h1]; norm_num
+  refine ⟨?_, ?_, ?_⟩
+  · intro h
+    have : ‖(6 : ℝ) • basis 0 - 0‖ = 0 := by rw [← h]; simp
+    rw [h6] at this; norm_num at this
+  · rw [h6, sub_zero, smul_smul]; norm_num
+  · rw [h6]; norm_num
 
 end OmplModel.PhsGeom
